@@ -241,7 +241,15 @@ func (n *Net) Publish(_ context.Context, e *wire.Envelope) error {
 		to.Put(e)
 	}
 	if n.Yield {
-		rt.SchedPoint("published")
+		// the tag names sender and message type, so that the recorded order of
+		// schedule points identifies who went first in a native replay
+		tag := []byte("pub s.. t..")
+		if a, ok := e.Sender[channel.TestBackendID].(*simwire.Address); ok {
+			tag[5], tag[6] = hexDigit(a[0]>>4), hexDigit(a[0]&15)
+		}
+		t := uint8(e.Msg.Type())
+		tag[9], tag[10] = hexDigit(t>>4), hexDigit(t&15)
+		rt.SchedPoint(string(tag))
 	}
 	return nil
 }
@@ -288,3 +296,5 @@ func (p *Pair) Open(nonce int64, cur func(id channel.ID) *channel.State) (params
 	}
 	return params, st, chs
 }
+
+func hexDigit(b byte) byte { return "0123456789abcdef"[b] }
